@@ -99,6 +99,68 @@ claim("C16", "symx",
       "reals not floats (A1); plot/plato excluded; form factors in C12; miniball on symbolic points excluded; contract stubs",
       "DESIGN.md §6 C16")
 
+claim("C07", "symx",
+      "symbolic execution of the real ConvexPolyhedron constructor, Polyhedron.sort_faces and merge_faces with free placement; per-path structural claims, geometric ones decided by z3",
+      "Whole ConvexPolyhedron constructor (exact hull stub in several output orders, _combine_simplices, _sort_simplices incl. the arctan2/lexsort pre-sort, "
+      "sort_faces, _find_neighbors) on eleven base solids under free scale/translation, rational rotations and vertex permutations; Polyhedron.sort_faces on "
+      "facets with shuffled list and rotated / reversed / arbitrarily ordered cycles (seeded scrambles, several per shape incl. cuboctahedron and a corner-cut "
+      "cube); merge_faces on shuffled, mixed-winding triangulations. Claims: faces = hull facets, counter-clockwise from outside, unit outward normals, plane "
+      "contains its face and all other vertices strictly inside, symmetric neighbours = shared edges, unique sorted edges, Euler, num_edges, simplices "
+      "triangulate the faces, dihedral cosine. Thorough: tetrahedron with 12 free coordinates through the constructor.",
+      "reals not floats (A1); qhull/kabsch contract stubs; scrambles are a seeded finite sample; path budget",
+      "DESIGN.md §6 C07")
+claim("C09", "symx",
+      "symbolic execution of the public queries on g.X0 (free scale in [1e-3,1e3], free translation, rational rotations, relabellings) compared with the transformation law on the exact concrete run on X0",
+      "For base shapes of the six vertex-based classes every listed query (sizes, centroids, normals, inertia tensors, curvature descriptors, in/circum-ball "
+      "radii, containment of transformed probe points) is executed with s and t symbolic; lengths/areas/volumes scale by s, s^2, s^3, points move with g, "
+      "tensors follow s^5 R I R^T + parallel axis (s^4 for laminae), dimensionless quantities and containment are unchanged; every path on which a valid "
+      "shape raises is a violation whose witness is the scale (this is how the absolute thresholds of polytri were found). Polygon(test_simple=True) runs "
+      "the real Bentley-Ottmann sweep under the same transformations.",
+      "reals not floats (A1); finite rotation and relabelling lists; contract stubs; minimal bounding balls excluded",
+      "DESIGN.md §6 C09")
+claim("C11", "symx",
+      "symbolic execution of the Steiner / curvature getters with free rounding radius and free placement or coordinates; identities decided by z3 with arccos uninterpreted",
+      "ConvexSpheropolygon area/perimeter on cores with all coordinates free (n=3,4; 5 thorough) and r>=0 free; ConvexSpheropolyhedron volume, surface_area, "
+      "mean_curvature and ConvexPolyhedron mean_curvature, tau, asphericity, iq, get_dihedral on base solids with free scale/translation, rational rotations "
+      "and r>=0 free, against A+Pr+pi r^2, P+2 pi r, V+Sr+4 pi M r^2+4/3 pi r^3, S+8 pi M r+4 pi r^2, M+r with M = sum_e L_e(pi-phi_e)/(8 pi) written "
+      "independently from the exact facet planes.",
+      "reals not floats (A1); arccos is an uninterpreted function (congruence, range, reflection facts): its numerical value is outside",
+      "DESIGN.md §6 C11")
+claim("C19", "symx+crosshair",
+      "symbolic execution of gsd_shape_spec/from_gsd_type_shapes, repr/eval and to_hoomd with free placement (term equality by z3) + CrossHair on the string/dict dispatch",
+      "All ten classes: GSD and repr round trips on shapes with a free translation (curved shapes: all parameters free) compare class and vertices/faces/"
+      "radii/axes/centre/normal as terms (a scalar prints as a token that eval maps back); to_hoomd: returned vertices = original minus the exact centroid, "
+      "centroid (0,0,0), volume and inertia tensor about the centroid from an independent oracle, sweep radius, object unchanged. CrossHair: missing / "
+      "unknown type raises ValueError, dispatch table, to_json key sets / AttributeError.",
+      "reals not floats (A1); repr(float) round-trips (Python guarantee); CrossHair bounded by string/list length and per-condition timeout",
+      "DESIGN.md §6 C19")
+
+claim("C13", "symx",
+      "symbolic execution of the ball getters over free-parameter shape families with an exact least-squares stub; definition / RuntimeError claims decided by z3 (QF_NRA)",
+      "Rectangle a x b, kite, box a x b x c (all parameters and offsets free, sizes in [1/2,4]), triangle / tetrahedron with a free vertex (all coordinates "
+      "free in the thorough tier), placement-free base polygons and solids, curved shapes with free axes: circum-ball through every vertex, in-ball tangent "
+      "to every edge / face plane from inside, centred balls centred at the exact centroid with the extreme vertex / face distance, and RuntimeError wherever "
+      "the parameters violate the existence equation by 1 %. The residual test of the code is a polynomial branch condition through the exact lstsq stub. "
+      "minimal_bounding_*: only coxeter's wrapper around miniball (exact contract stub on concrete points).",
+      "reals not floats (A1); lstsq/miniball/qhull/kabsch contract stubs; minimality of the miniball result is third-party code (outside)",
+      "DESIGN.md §6 C13")
+claim("C18", "z3+crosshair",
+      "z3 model enumeration of the entry index over the finite tables (exhaustive, certified by the final unsat) + CrossHair on symbolic unknown names/DOIs",
+      "All 290 tabulated entries (Platonic 5, Archimedean 13, Catalan 13, Johnson 92, prism/antiprism 16, pyramid/dipyramid 6, science.1220869 145) are "
+      "visited as z3 models of the index constraint; on each the real loader and ConvexPolyhedron constructor run in float64 and are compared with a "
+      "literature table (V/E/F, unit volume, equal edges, regular faces, insphere for Catalan, repository entries against the named family they cite, "
+      "iteration order). Unknown names and DOIs as symbolic strings (CrossHair) must raise KeyError.",
+      "finite-domain enumeration (no symbolic numerics, tolerance 1e-6); reference table from the literature; CrossHair bounded by string length",
+      "DESIGN.md §6 C18")
+claim("C20", "symx+crosshair",
+      "symbolic execution of the real writers with token-valued coordinates + independent parsers; coordinate identity decided by z3; CrossHair on the save() dispatch",
+      "All seven writers run on meshes with mixed face degrees (corner-cut cube, frustum, L prism; Polyhedron and ConvexPolyhedron) placed by a free scale "
+      "and translation; a symbolic coordinate prints as a token, independent parsers per format must recover a token denoting the same scalar at every "
+      "vertex slot, the same cycles (index base), declared counts equal to the data, STL fan triangles with outward normals and the polyhedron's vertices; "
+      "the shape is unchanged. CrossHair: save() dispatches the seven strings and raises ValueError for any other string.",
+      "reals not floats (A1); decimal rendering of doubles is outside the encoding (bit-exact read-back only on the float64 code at the path samples)",
+      "DESIGN.md §6 C20")
+
 ALL = ["C%02d" % i for i in range(1, 21)]
 
 
